@@ -372,12 +372,12 @@ def run(ctx: Check, tree: Tree) -> None:
     ]
     D.reset()
     A = Angles(tree)
-    check_tables(ctx, tree, A)
-    exprs = check_zeta_identities(ctx, tree, A)
-    check_zeta_geometry(ctx, tree, A, exprs)
-    check_theta_hat(ctx, tree, A)
-    check_scattering(ctx, tree, A)
-    check_consumers(ctx, tree)
+    ctx.section(check_tables, ctx, tree, A)
+    exprs = ctx.section(check_zeta_identities, ctx, tree, A)
+    ctx.section(check_zeta_geometry, ctx, tree, A, exprs)
+    ctx.section(check_theta_hat, ctx, tree, A)
+    ctx.section(check_scattering, ctx, tree, A)
+    ctx.section(check_consumers, ctx, tree)
     run.state = (A, exprs)  # type: ignore[attr-defined]
 
 
